@@ -1845,3 +1845,163 @@ Module NVB_C07RoomR.
       cbv [sgn negb sb_s Nat.even sb_c sb_coord sb_f sb_lo sb_hi tmul tsub topp tone tzero RFOps]. lra.
   Qed.
 End NVB_C07RoomR.
+
+(** ** One dictionary for every theorem: each polymorphic theorem of the twelve property files, with its
+    law-class arguments resolved at the single real instance [RAll] (type-class resolution has to find
+    every law the theorem assumes -- ring, order, field, floor, nat, sqrt, abs, acos, strict acos, div,
+    exp, ln, x*1 = x -- for the SAME [Ops R]). *)
+From SV Require Properties.C04 Properties.C05 Properties.C07 Properties.C08 Properties.C13 Properties.C14
+  Properties.C17 Properties.C18 Properties.C19 Properties.C20.
+Module NVB_LawsAtRAll.
+  Import Instances.ShoeboxR RAll.
+  Definition at_C04_upper := @C04.C04_upper R RFOps _ _ _ _ _.
+  Definition at_C04_upper_strict := @C04.C04_upper_strict R RFOps _ _ _ _ _ _.
+  Definition at_C04_hidden_zero := @C04.C04_hidden_zero R RFOps.
+  Definition at_C04_hidden_zero_kernels := @C04.C04_hidden_zero_kernels R RFOps.
+  Definition at_C04_vertex_order := @C04.C04_vertex_order R RFOps _.
+  Definition at_C04_similarity_translation := @C04.C04_similarity_translation R RFOps _.
+  Definition at_C04_similarity_isometry := @C04.C04_similarity_isometry R RFOps _ _.
+  Definition at_C04_similarity_scaling := @C04.C04_similarity_scaling R RFOps _ _ _ _.
+  Definition at_C04_similarity := @C04.C04_similarity R RFOps _ _ _ _ _.
+  Definition at_C04_partial := @C04.C04_partial R RFOps _ _ _ _ _.
+  Definition at_C04_shoebox_all_patches_visible := @C04.C04_shoebox_all_patches_visible R RFOps _ _ _ _ _.
+  Definition at_C05_invisible_zero := @C05.C05_invisible_zero R RFOps _ _ _.
+  Definition at_C05_reciprocity := @C05.C05_reciprocity R RFOps _ _ _.
+  Definition at_C05_stokes_sum_symmetric := @C05.C05_stokes_sum_symmetric R RFOps _.
+  Definition at_C05_reciprocity_stokes := @C05.C05_reciprocity_stokes R RFOps _ _ _ _.
+  Definition at_C05_stokes_nonneg := @C05.C05_stokes_nonneg R RFOps _.
+  Definition at_C05_stokes_entry_nonneg := @C05.C05_stokes_entry_nonneg R RFOps _.
+  Definition at_C05_boole_exact := @C05.C05_boole_exact R RFOps _ _ _.
+  Definition at_C05_boole_linear := @C05.C05_boole_linear R RFOps _ _ _.
+  Definition at_C05_similarity_cut_is_nocut := @C05.C05_similarity_cut_is_nocut R RFOps _ _ _.
+  Definition at_C05_similarity_partial := @C05.C05_similarity_partial R RFOps _.
+  Definition at_C05_similarity_cut0 := @C05.C05_similarity_cut0 R RFOps _ _ _ _.
+  Definition at_C05_similarity_isometry := @C05.C05_similarity_isometry R RFOps _ _ _ _.
+  Definition at_C05_similarity_orthogonal := @C05.C05_similarity_orthogonal R RFOps _ _ _ _.
+  Definition at_C05_similarity_scaling := @C05.C05_similarity_scaling R RFOps _ _ _ _ _.
+  Definition at_C05_similarity_scaling_sum := @C05.C05_similarity_scaling_sum R RFOps _ _ _ _ _.
+  Definition at_C05_similarity_axis_permutation := @C05.C05_similarity_axis_permutation R RFOps _ _ _ _.
+  Definition at_C05_nusselt_translation := @C05.C05_nusselt_translation R RFOps _.
+  Definition at_C05_universal_full_translation := @C05.C05_universal_full_translation R RFOps _.
+  Definition at_C05_nusselt_scaling := @C05.C05_nusselt_scaling R RFOps _ _ _ _.
+  Definition at_C05_nusselt_grid_rectangle := @C05.C05_nusselt_grid_rectangle R RFOps _ _ _ _.
+  Definition at_C05_full_assembly_entries := @C05.C05_full_assembly_entries R RFOps.
+  Definition at_C05_full_assembly := @C05.C05_full_assembly R RFOps _ _ _.
+  Definition at_C05_room_form_factors_computed := @C05.C05_room_form_factors_computed R RFOps _ _ _.
+  Definition at_C05_room_geometry_is_tiling := @C05.C05_room_geometry_is_tiling R RFOps.
+  Definition at_C07_scan_loop := @C07.C07_scan_loop R RFOps.
+  Definition at_C07_scan_point := @C07.C07_scan_point R RFOps.
+  Definition at_C07_scan_patch := @C07.C07_scan_patch R RFOps.
+  Definition at_C07_scan_vis_sym := @C07.C07_scan_vis_sym R RFOps.
+  Definition at_C07_scan_pairs := @C07.C07_scan_pairs R RFOps.
+  Definition at_C07_symmetric_point := @C07.C07_symmetric_point R RFOps _ _ _ _.
+  Definition at_C07_symmetric := @C07.C07_symmetric R RFOps _ _ _ _.
+  Definition at_C07_symmetric_relation := @C07.C07_symmetric_relation R RFOps _ _ _ _.
+  Definition at_C07_segment_logic := @C07.C07_segment_logic R RFOps _ _ _ _.
+  Definition at_C07_segment_logic_endpoint := @C07.C07_segment_logic_endpoint R RFOps _ _ _ _.
+  Definition at_C07_segment_logic_coplanar := @C07.C07_segment_logic_coplanar R RFOps _ _ _ _.
+  Definition at_C07_partial := @C07.C07_partial R RFOps _ _ _ _.
+  Definition at_C07_pip_correct_rect := @C07.C07_pip_correct_rect R RFOps _ _ _ _.
+  Definition at_C07_pip_correct_rect_closed := @C07.C07_pip_correct_rect_closed R RFOps _ _ _ _.
+  Definition at_C07_pip_correct_rect_horizontal := @C07.C07_pip_correct_rect_horizontal R RFOps _ _ _ _.
+  Definition at_C07_segment_logic_rect := @C07.C07_segment_logic_rect R RFOps _ _ _ _.
+  Definition at_C07_segment_logic_rect_endpoint := @C07.C07_segment_logic_rect_endpoint R RFOps _ _ _ _.
+  Definition at_C07_segment_logic_rect_coplanar := @C07.C07_segment_logic_rect_coplanar R RFOps _ _ _ _.
+  Definition at_C07_winding_general_position := @C07.C07_winding_general_position R RFOps _ _ _ _.
+  Definition at_C07_pip_general_position := @C07.C07_pip_general_position R RFOps _ _ _ _.
+  Definition at_C07_crossing_triangle := @C07.C07_crossing_triangle R RFOps _ _.
+  Definition at_C07_pip_correct_triangle := @C07.C07_pip_correct_triangle R RFOps _ _ _ _.
+  Definition at_C07_blocked_iff_rect := @C07.C07_blocked_iff_rect R RFOps _ _ _ _.
+  Definition at_C07_room_visibility_geometric := @C07.C07_room_visibility_geometric R RFOps _ _ _ _.
+  Definition at_C07_room_patches_are_rects := @C07.C07_room_patches_are_rects R RFOps _ _ _ _ _.
+  Definition at_C07_room_visibility_geometric_shoebox := @C07.C07_room_visibility_geometric_shoebox R RFOps _ _ _ _ _.
+  Definition at_C07_rect_own_centroid := @C07.C07_rect_own_centroid R RFOps _ _ _ _ _.
+  Definition at_C07_room_center_is_rect_centroid := @C07.C07_room_center_is_rect_centroid R RFOps _ _ _ _ _.
+  Definition at_C07_room_behind_hidden := @C07.C07_room_behind_hidden R RFOps _ _ _ _ _.
+  Definition at_C07_room_coplanar_hidden := @C07.C07_room_coplanar_hidden R RFOps _ _ _ _ _.
+  Definition at_C07_is_shoebox_unfold := @C07.C07_is_shoebox_unfold R RFOps.
+  Definition at_C07_sb_tolerances_unfold := @C07.C07_sb_tolerances_unfold R RFOps.
+  Definition at_C07_shoebox_axis_walls := @C07.C07_shoebox_axis_walls R RFOps _ _ _ _ _.
+  Definition at_C07_shoebox_general_position := @C07.C07_shoebox_general_position R RFOps _ _ _ _ _.
+  Definition at_C07_shoebox_visibility := @C07.C07_shoebox_visibility R RFOps _ _ _ _ _.
+  Definition at_C07_shoebox_point_visibility := @C07.C07_shoebox_point_visibility R RFOps _ _ _ _ _.
+  Definition at_C08_count := @C08.C08_count R RFOps _ _ _ _.
+  Definition at_C08_count_is_floor := @C08.C08_count_is_floor R RFOps _ _ _ _.
+  Definition at_C08_total_is_length := @C08.C08_total_is_length R RFOps.
+  Definition at_C08_cell := @C08.C08_cell R RFOps _ _ _ _.
+  Definition at_C08_congruent := @C08.C08_congruent R RFOps _ _ _ _.
+  Definition at_C08_disjoint := @C08.C08_disjoint R RFOps _ _ _ _.
+  Definition at_C08_cover := @C08.C08_cover R RFOps _ _ _ _.
+  Definition at_C08_inside := @C08.C08_inside R RFOps _ _ _ _.
+  Definition at_C08_rect_wall_extents := @C08.C08_rect_wall_extents R RFOps _ _.
+  Definition at_C08_area_sum := @C08.C08_area_sum R RFOps _ _ _ _.
+  Definition at_C08_patch_area := @C08.C08_patch_area R RFOps _ _ _ _ _.
+  Definition at_C08_wall_attribution := @C08.C08_wall_attribution R RFOps.
+  Definition at_C08_wall_block := @C08.C08_wall_block R RFOps.
+  Definition at_C08_depends_on_extents := @C08.C08_depends_on_extents R RFOps.
+  Definition at_C08_vertex_order := @C08.C08_vertex_order R RFOps _ _ _ _.
+  Definition at_C08_eight_orders := @C08.C08_eight_orders R RFOps _ _ _ _.
+  Definition at_C08_translate := @C08.C08_translate R RFOps _ _.
+  Definition at_C08_kang_same := @C08.C08_kang_same R RFOps.
+  Definition at_C08_axis_permutation := @C08.C08_axis_permutation R RFOps _ _ _ _.
+  Definition at_C08_axis_permutation_index := @C08.C08_axis_permutation_index R RFOps _ _ _ _.
+  Definition at_C08_axis_permutation_vertices := @C08.C08_axis_permutation_vertices R RFOps _ _ _ _.
+  Definition at_C08_kang_axis_permutation := @C08.C08_kang_axis_permutation R RFOps _ _ _ _.
+  Definition at_C13_normalised_weights := @C13.C13_normalised_weights R RFOps _.
+  Definition at_C13_energy := @C13.C13_energy R RFOps _ _ _.
+  Definition at_C13_scale_invariant := @C13.C13_scale_invariant R RFOps _ _ _.
+  Definition at_C13_nonneg := @C13.C13_nonneg R RFOps _ _ _.
+  Definition at_C13_nonneg_directional := @C13.C13_nonneg_directional R RFOps _ _ _.
+  Definition at_C13_symmetric := @C13.C13_symmetric R RFOps _.
+  Definition at_C13_directional := @C13.C13_directional R RFOps _ _ _.
+  Definition at_C14_rigid := @C14.C14_rigid R RFOps _.
+  Definition at_C14_argmin := @C14.C14_argmin R RFOps _ _.
+  Definition at_C14_angle := @C14.C14_angle R RFOps _.
+  Definition at_C14_frame_equiv := @C14.C14_frame_equiv R RFOps _.
+  Definition at_C14_frame_complete := @C14.C14_frame_complete R RFOps _.
+  Definition at_C14_uses := @C14.C14_uses R RFOps.
+  Definition at_C17_translate := @C17.C17_translate R RFOps _.
+  Definition at_C17_translate_entries := @C17.C17_translate_entries R RFOps _.
+  Definition at_C17_relabel := @C17.C17_relabel R RFOps _.
+  Definition at_C17_relabel_total := @C17.C17_relabel_total R RFOps _.
+  Definition at_C17_relabel_arrivals := @C17.C17_relabel_arrivals R RFOps.
+  Definition at_C17_relabel_scene := @C17.C17_relabel_scene R RFOps _.
+  Definition at_C17_distances := @C17.C17_distances R RFOps _.
+  Definition at_C17_distances_scene := @C17.C17_distances_scene R RFOps _.
+  Definition at_C17_kernels_partial := @C17.C17_kernels_partial R RFOps _ _ _.
+  Definition at_C17_kernels_stokes_rotation := @C17.C17_kernels_stokes_rotation R RFOps _ _ _ _.
+  Definition at_C17_kernels_visibility_partial := @C17.C17_kernels_visibility_partial R RFOps _.
+  Definition at_C17_normal_scale := @C17.C17_normal_scale R RFOps _ _ _ _.
+  Definition at_C17_tiling_axis_permutation := @C17.C17_tiling_axis_permutation R RFOps _ _ _ _.
+  Definition at_C18_sound := @C18.C18_sound R RFOps _.
+  Definition at_C18_complete_partial := @C18.C18_complete_partial R RFOps _.
+  Definition at_C18_complete_refuted_up_vector_rank := @C18.C18_complete_refuted_up_vector_rank R RFOps.
+  Definition at_C18_complete_refuted_normal_rank := @C18.C18_complete_refuted_normal_rank R RFOps.
+  Definition at_C18_complete_refuted_wall_ids_rank := @C18.C18_complete_refuted_wall_ids_rank R RFOps.
+  Definition at_C18_complete_refuted_brdf_index := @C18.C18_complete_refuted_brdf_index R RFOps.
+  Definition at_C18_complete_refuted_out_dirs_empty := @C18.C18_complete_refuted_out_dirs_empty R RFOps.
+  Definition at_C18_complete_refuted_hist_without_duration := @C18.C18_complete_refuted_hist_without_duration R RFOps.
+  Definition at_C19_offset := @C19.C19_offset R RFOps.
+  Definition at_C19_recursion := @C19.C19_recursion R RFOps _.
+  Definition at_C19_run_is_recursion := @C19.C19_run_is_recursion R RFOps.
+  Definition at_C19_drop := @C19.C19_drop R RFOps _.
+  Definition at_C19_truncation_commutes := @C19.C19_truncation_commutes R RFOps _.
+  Definition at_C19_window := @C19.C19_window R RFOps _.
+  Definition at_C19_nothing_before_delay := @C19.C19_nothing_before_delay R RFOps _.
+  Definition at_C19_monotone_K := @C19.C19_monotone_K R RFOps _ _ _.
+  Definition at_C19_receiver_factor_nonneg := @C19.C19_receiver_factor_nonneg R RFOps _ _ _ _ _ _.
+  Definition at_C19_response := @C19.C19_response R RFOps _.
+  Definition at_C19_direct := @C19.C19_direct R RFOps _.
+  Definition at_C19_translate := @C19.C19_translate R RFOps _ _.
+  Definition at_C19_cyclic := @C19.C19_cyclic R RFOps _.
+  Definition at_C19_cyclic_distances := @C19.C19_cyclic_distances R RFOps _.
+  Definition at_C20_factor := @C20.C20_factor R RFOps.
+  Definition at_C20_factor_direct := @C20.C20_factor_direct R RFOps.
+  Definition at_C20_frame_orthonormal := @C20.C20_frame_orthonormal R RFOps _.
+  Definition at_C20_corotate := @C20.C20_corotate R RFOps _ _.
+  Definition at_C20_corotate_normalised := @C20.C20_corotate_normalised R RFOps _.
+  Definition at_C20_corotate_scene := @C20.C20_corotate_scene R RFOps _ _.
+  Definition at_C20_unit := @C20.C20_unit R RFOps _.
+  Definition at_C20_unit_direct := @C20.C20_unit_direct R RFOps _.
+  Definition at_C20_no_directivity := @C20.C20_no_directivity R RFOps.
+End NVB_LawsAtRAll.
